@@ -34,6 +34,7 @@ func runC06(r *engine.Run) {
 	r.Rule("WHO-versions", "a per-key versions map is only read or added to (Get, Peek, Add, ContainsOrAdd, PeekOrAdd, Contains, Len, Keys); Purge, Remove and the like are never called on one: versions leave by capacity eviction only, so the lock-free ancestor walk's memo can never become the newest entry of a map that was just emptied")
 	r.Rule("ORDER-commitclear", "in StateCache.commit no versions-map Add is reachable after the store that replaces the block's pending map: the pending writes are dropped only after all of them were published")
 	r.Rule("WHO-globalcache", "package statecache keeps no cache instance (StateCache, BlockCache, TransactionCache, QueryBlockCache) in a package-level variable: caches are per block / per transaction objects")
+	r.Rule("WHO-layers", "see C07: the key->versions map is installed into only by the commit path and removed from only by Remove, never by a lookup (a re-registered stale map hides a later commit's write: the lookup at that block then hits an ancestor's value)")
 	r.NotDec = append(r.NotDec,
 		"hit ratio after LRU eviction (capacity arithmetic)", "equality with the block-tree oracle for every history")
 	whoReadOnly(r, "WHO-readonly")
@@ -57,6 +58,7 @@ func runC06(r *engine.Run) {
 	whoVersions(r, "WHO-versions")
 	orderCommitClear(r, "ORDER-commitclear")
 	whoGlobalCache(r, "WHO-globalcache")
+	whoLayers(r)
 }
 
 // lruCallOnField matches c = (*lru.Cache).<method>(load of <recvType>.<field>, ...).
